@@ -227,7 +227,10 @@ fn ord_str(o: std::cmp::Ordering) -> &'static str {
     }
 }
 
-fn pair_verdict(eqab: bool, eqba: bool, cmp: Option<(std::cmp::Ordering, std::cmp::Ordering)>, hash_eq: bool) -> &'static str {
+fn pair_verdict(same: bool, eqab: bool, eqba: bool, cmp: Option<(std::cmp::Ordering, std::cmp::Ordering)>, hash_eq: bool) -> &'static str {
+    if same && !eqab {
+        return "eq-not-reflexive";
+    }
     if eqab != eqba {
         return "eq-not-symmetric";
     }
@@ -263,9 +266,9 @@ pub fn run(args: &[&str]) -> String {
             ["i2f", i] => format!("{}", (i.parse::<i64>().unwrap() as f64).to_bits()),
             ["of.eq", x, y] => format!("{}", of(x) == of(y)),
             ["of.cmp", x, y] => ord_str(of(x).cmp(&of(y))).into(),
-            ["of.law", x, y] => {
-                let (x, y) = (of(x), of(y));
-                pair_verdict(x == y, y == x, Some((x.cmp(&y), y.cmp(&x))), feed(&x) == feed(&y)).into()
+            ["of.law", tx, ty] => {
+                let (x, y) = (of(tx), of(ty));
+                pair_verdict(u64::from_str_radix(tx, 16) == u64::from_str_radix(ty, 16), x == y, y == x, Some((x.cmp(&y), y.cmp(&x))), feed(&x) == feed(&y)).into()
             }
             ["of.trans", x, y, z] => {
                 let (x, y, z) = (of(x), of(y), of(z));
@@ -280,9 +283,9 @@ pub fn run(args: &[&str]) -> String {
             ["ov.eq", x, y] => format!("{}", ov(x) == ov(y)),
             ["ov.cmp", x, y] => ord_str(ov(x).cmp(&ov(y))).into(),
             ["ov.hash", x] => feed_str(&feed(&ov(x))),
-            ["ov.law", x, y] => {
-                let (x, y) = (ov(x), ov(y));
-                pair_verdict(x == y, y == x, Some((x.cmp(&y), y.cmp(&x))), feed(&x) == feed(&y)).into()
+            ["ov.law", tx, ty] => {
+                let (x, y) = (ov(tx), ov(ty));
+                pair_verdict(tx == ty, x == y, y == x, Some((x.cmp(&y), y.cmp(&x))), feed(&x) == feed(&y)).into()
             }
             ["ov.trans", x, y, z] => {
                 let (x, y, z) = (ov(x), ov(y), ov(z));
@@ -296,9 +299,9 @@ pub fn run(args: &[&str]) -> String {
             }
             ["hv.eq", x, y] => format!("{}", hv(x) == hv(y)),
             ["hv.hash", x] => feed_str(&feed(&hv(x))),
-            ["hv.law", x, y] => {
-                let (x, y) = (hv(x), hv(y));
-                pair_verdict(x == y, y == x, None, feed(&x) == feed(&y)).into()
+            ["hv.law", tx, ty] => {
+                let (x, y) = (hv(tx), hv(ty));
+                pair_verdict(tx == ty, x == y, y == x, None, feed(&x) == feed(&y)).into()
             }
             _ => "bad-op".into(),
         }
